@@ -1,2 +1,24 @@
-(** C07 placeholder *)
-From GoSh Require Import Base.Bytes.
+(** C07 — One call consumes exactly one complete command from the stream. *)
+From GoSh Require Import Base.Bytes Lex.Eff.
+
+(** For every program over the ReadRune / UnreadRune interface (the lexer is one: all its input
+    goes through read() / unread()), every source and every interpreter state: replacing the text
+    beyond the inspected prefix by anything else changes neither the result, nor the outputs
+    (tokens, comments, errors, here-document bodies), nor the final reader position.  Hence the
+    parse of a command in a stream equals the parse of its text alone, and the next call starts
+    where this one stopped. *)
+Theorem C07_prefix_locality :
+  forall (O A : Type) (p : prog O A) (s1 s2 : source) (st : rstate),
+    agree (hiwater (snd (run p s1 st))) s1 s2 -> run p s2 st = run p s1 st.
+Proof. exact prefix_locality. Qed.
+Print Assumptions C07_prefix_locality.
+
+(** The reader is never positioned beyond what was inspected (look-ahead is undone by unread). *)
+Theorem C07_cursor_within_inspected :
+  forall (O A : Type) (p : prog O A) (s : source) (st : rstate),
+    (cursor st <= hiwater st)%nat -> (cursor (snd (run p s st)) <= hiwater (snd (run p s st)))%nat.
+Proof. exact cursor_le_hiwater. Qed.
+Print Assumptions C07_cursor_within_inspected.
+
+(** Not proved here (decided by the stream check on the implementation): that the lexer stops
+    exactly after the terminating newline of a complete command (it needs the lexer model). *)
